@@ -28,7 +28,7 @@ fn is_observer(k: &OpKind) -> bool {
     | OpKind::Map { .. }
     | OpKind::Stream { .. }
     | OpKind::ToWriter { .. } => true,
-    OpKind::CloneThen { then } | OpKind::ChildFault { then, .. } => is_observer(then),
+    OpKind::CloneThen { then, .. } | OpKind::ChildFault { then, .. } => is_observer(then),
     _ => false,
   }
 }
@@ -59,7 +59,7 @@ pub fn is_overflow_panic(m: &str) -> bool {
 /// observer it runs on the clone.
 fn judge_class(k: &OpKind) -> &'static str {
   match k {
-    OpKind::CloneThen { then } | OpKind::ChildFault { then, .. } => judge_class(then),
+    OpKind::CloneThen { then, .. } | OpKind::ChildFault { then, .. } => judge_class(then),
     other => other.class(),
   }
 }
@@ -67,7 +67,7 @@ fn judge_class(k: &OpKind) -> &'static str {
 pub fn is_positional_op(k: &OpKind) -> bool {
   match k {
     OpKind::Map { .. } | OpKind::Stream { .. } => true,
-    OpKind::CloneThen { then } | OpKind::ChildFault { then, .. } => is_positional_op(then),
+    OpKind::CloneThen { then, .. } | OpKind::ChildFault { then, .. } => is_positional_op(then),
     _ => false,
   }
 }
@@ -320,8 +320,9 @@ fn strip_abort(k: &OpKind) -> OpKind {
       columns: *columns,
       abort_at: None,
     },
-    OpKind::CloneThen { then } => OpKind::CloneThen {
+    OpKind::CloneThen { then, orphan } => OpKind::CloneThen {
       then: Box::new(strip_abort(then)),
+      orphan: orphan.clone(),
     },
     OpKind::ChildFault { then, .. } => strip_abort(then),
     other => other.clone(),
@@ -749,7 +750,7 @@ pub fn check_strict(
       }
       let e = &expected[t][i];
       let inner_kind = match op.kind.without_fault() {
-        OpKind::CloneThen { then } => then.without_fault().clone(),
+        OpKind::CloneThen { then, .. } => then.without_fault().clone(),
         k => k.clone(),
       };
       if let OpKind::ToWriter { plan } = &inner_kind {
@@ -924,7 +925,7 @@ pub fn check_strict(
     let mut aborted_first: BTreeMap<bool, bool> = BTreeMap::new();
     for (i, op) in scn.threads[0].iter().enumerate() {
       let inner = match op.kind.without_fault() {
-        OpKind::CloneThen { then } => then.without_fault().clone(),
+        OpKind::CloneThen { then, .. } => then.without_fault().clone(),
         k => k.clone(),
       };
       let was_aborted = matches!(outcome.answers[0][i], Answer::Aborted { .. });
@@ -1258,7 +1259,7 @@ pub fn gen_c14(rng: &mut Rng) -> Scenario {
         22..=24 => OpKind::UpdateHash,
         25..=31 => OpKind::EqClone,
         32..=38 => OpKind::Lookup { probe: *rng.pick(&[0usize, 1, 1, 2]) },
-        39..=44 => OpKind::CloneThen { then: Box::new(OpKind::Hash) },
+        39..=44 => OpKind::CloneThen { then: Box::new(OpKind::Hash), orphan: None },
         _ => gen_op_kind_pub(rng, 3, true),
       };
       ops.push(Op { obj, kind });
@@ -1380,6 +1381,7 @@ pub fn gen_c10(rng: &mut Rng) -> Scenario {
         } else {
           OpKind::Stream { columns, abort_at: None }
         }),
+        orphan: None,
       },
       _ => OpKind::Map { columns: !columns },
     };
